@@ -40,6 +40,7 @@ def verify_contract(name, timeout_ms=20000, repo_root=None, want_model=True, var
     t0 = time.time()
     out = {'function': name, 'variant': variant, 'obligations': [], 'status': 'ok', 'error': None}
     try:
+        sym.reset_globals()
         it = make_interp(repo_root)
         con = it.contracts[name]
         obs, info = con.verify(it, variant)
